@@ -290,6 +290,9 @@ def addresses_absent(sim, req) -> bool:
         if r[3] in ("application", "service"):
             table = node.applications if r[3] == "application" else node.services
             return not any(sw.name == r[4] for sw in table.values())
+        if r[3:6] == ["software_manager", "application", "uninstall"] and len(r) >= 7:
+            # "uninstall the application NAME": there is no application of that name (a service of that name is not one)
+            return not any(sw.name == r[6] for sw in node.applications.values())
         if r[3] == "file_system" and r[4] == "folder" and len(r) >= 7 and "restore" not in r[5:]:
             fo = next((f for f in node.file_system.folders.values() if f.name == r[5]), None)
             if fo is None:
